@@ -487,7 +487,11 @@ func (c *Ctx) validateTraces(name string, runs []*TraceRun) int {
 			os.WriteFile(filepath.Join(c.Work, fmt.Sprintf("rejected_%d.json", len(c.Viol))), b, 0644)
 			break
 		}
-		c.violation(c.Prop+"|trace|"+name+"|rejected", bad.key, map[string]interface{}{"mode": "trace", "detail": fmt.Sprintf("the specification explains the first %d recorded events of this run but not the next one", l-1),
+		kc := name
+		if strings.HasPrefix(bad.key, "example:") {
+			kc = bad.key
+		}
+		c.violation(c.Prop+"|trace|"+kc+"|rejected", bad.key, map[string]interface{}{"mode": "trace", "detail": fmt.Sprintf("the specification explains the first %d recorded events of this run but not the next one", l-1),
 			"next_event": next, "events": bad.Events})
 		runs = runs[tr:]
 	}
